@@ -78,11 +78,12 @@ def run_models(run: Run, scratch: Path):
         if t["how"] != "running" and not r["ok"] and not (t["how"] == "crashed" and t["fcall"] != "none"):
             rejected.setdefault(t["cfg"], set()).add((t["pre"], t["how"], t["fcall"], t["dest"], D.coarse(t["tmp"])))
     not_rejected = sorted(seen - set(rejected))
-    if not_rejected or "swallow_close" not in rejected or "zip_append" not in rejected:
+    if not_rejected or not {"swallow_close", "zip_append", "commit_on_interrupt"} <= set(rejected):
         raise RuntimeError(f"spec self-test: Atomic does not reject the configurations {not_rejected} of RejectedConfigs (seen: {sorted(seen)})")
     run.note("rejected_terminal_states_per_rejected_configuration", {k: len(v) for k, v in sorted(rejected.items())})
     run.note("swallow_close_rejected_outcomes", sorted(map(list, rejected["swallow_close"])))
     run.note("zip_append_rejected_outcomes", sorted(map(list, rejected["zip_append"])))
+    run.note("commit_on_interrupt_rejected_outcomes", sorted(map(list, rejected["commit_on_interrupt"])))
     table = {}
     for r in out["judge"][1]:
         if r.get("act") == "Judge":
@@ -127,6 +128,10 @@ def finding_key(case, res, out, broken):
     mode = {"dry": "run", "kill": "kill", "fault": "fault"}[res["mode"]]
     if mode == "run" and case.scenario == "fmtfail":
         mode = "formatter-raises"
+    if mode == "run" and case.scenario == "interrupt":
+        mode = "body-interrupted"
+    if mode == "fault" and D.is_interrupt(res.get("variant")):
+        mode = "interrupt"
     at = f"@{out['role']}" if out["role"] else ""
     if out.get("kill_role"):
         at += f"+kill@{out['kill_role']}"
@@ -185,6 +190,7 @@ def check_writes(run: Run, scratch: Path, model, table):
                 if run.tier == "quick" and r["case"].target == "zip":
                     # quick: zip targets with one one-shot and one persistent variant per boundary, no second-level kills
                     variants = [variants[0], variants[-1]]
+                variants = variants + D.interrupt_variants(r["events"][k - 1]["role"])
                 for v in variants:
                     jobs.append((r["case"], r["pre"], k, "fault", str(work), v))
         first = pool.map(D.execute, jobs, chunksize=2)
@@ -194,7 +200,7 @@ def check_writes(run: Run, scratch: Path, model, table):
         for r in first:
             if run.tier == "quick" and r["case"].target == "zip":
                 continue
-            if r["mode"] == "fault" and r["variant"].endswith(":once") and r["status"] == "exited":
+            if r["mode"] == "fault" and r["variant"].endswith(":once") and r["status"] == "exited" and not D.is_interrupt(r["variant"]):
                 for e in r["events"]:
                     if e["i"] > r["k"]:
                         jobs2.append((r["case"], r["pre"], r["k"], "fault", str(work), f"{r['variant']}:kill@{e['i']}"))
@@ -203,7 +209,7 @@ def check_writes(run: Run, scratch: Path, model, table):
         c = r["case"]
         out = D.outcome(r, newp.get(c))
         stats[r["mode"]] += 1
-        if r["mode"] != "dry" and any(e["kind"] == r["mode"] for e in r["events"]):
+        if r["mode"] != "dry" and any(e["kind"] in (r["mode"], "interrupt") for e in r["events"]):
             injected.add((c, r["pre"], r["k"], r["mode"], r["variant"]))
             if r["variant"] and "kill@" in r["variant"]:
                 stats["fault-then-kill"] += 1
@@ -327,7 +333,9 @@ def check(run: Run):
         "is instantiated per boundary with every error class a file system returns there (path calls: EIO, EACCES=PermissionError, "
         "ENOENT=FileNotFoundError; write/close: EIO, ENOSPC) x {once, persistent = the same call on the same path fails again "
         "when it is re-issued by a retry or fallback}, and for every one-shot fault additionally a kill at each later boundary of "
-        "that run (the process dies while the fault is handled); one evaluation = one child process judged by "
+        "that run (the process dies while the fault is handled).  Interrupt(c) of the spec (a BaseException that is not an Exception) "
+        "is instantiated at every boundary by a real SIGINT (KeyboardInterrupt) and by SystemExit, and BodyInterrupted by content whose "
+        "production is interrupted inside the with-block (formatter iteration, column formatting callback, tree rendering, to_json); one evaluation = one child process judged by "
         "OutcomeOK of AtomicWrite.tla; distinct non-trivial = distinct (case, destination state, boundary index, mode, fault variant) whose "
         "child logged the injection at that boundary (dry runs are not counted).  resume clause: every prefix of an apply_to run x {KeyboardInterrupt at the k-th "
         "data_store.write, hard kill at every file-system boundary of the run} then re-run in append mode, on two store kinds "
